@@ -186,6 +186,11 @@ def fb(ctx):
     okn = strip(F['name']) == ('field', ('field', GA, 'name'), '0')
     ctx.ob(['C17', 'C05'], 'R-SLP', 'FB|visibility-doc-name', bool(okv and okd and okn), 'Function.visibility, .doc and .name come from the grammar function\'s own visibility, attributes and name: %s / %s / %s' % (
         show(F['visibility'])[:60], show(F['doc'])[:80], show(F['name'])[:40]), where)
+    # return type: Some(resolved declared type) exactly when a return type is declared (any spelling: map/transpose/?, match, let-else)
+    okr, detr = return_type_rows(f, F['return_type'], GA)
+    ctx.ob(['C04', 'C05', 'C06', 'C20'], 'R-EXPR', 'FB|return-type', okr,
+           'Function.return_type is Some(resolve(scope, declared type)) exactly when the grammar function declares a return type, None exactly when it does not '
+           '(no filter, default or substitution in between): %s' % detr, where)
     # arguments: map over the grammar arguments in order, each variant to its counterpart
     args = seq_chain(f, F['arguments'])
     u = unwrap_all(args)
@@ -193,6 +198,63 @@ def fb(ctx):
         strip(strip(u[2][0][2][0][2][0])) == ('field', GA, 'arguments') or (is_call(u, 'Iterator::collect') and any(strip(x) == ('field', GA, 'arguments') for x in walk(u)) and not any(
             re.search(r'Iterator::(rev|skip|take|filter|step_by|chain|map_while|scan|take_while|skip_while|fuse|cycle)$', c_[1]) for c_ in calls_in(u)))
     ctx.ob(['C05', 'C04'], 'R-ITER', 'FB|arguments-in-order', bool(oka), 'semantic arguments are the grammar arguments mapped one to one in declaration order: %s' % show(u)[:160], where)
+
+
+def return_type_rows(f, e, GA):
+    """decision table of the Function.return_type value; (ok, detail)"""
+    P = f.prog
+    RT = ('field', GA, 'return_type')
+
+    def peel_opt(x):
+        x = strip(x)
+        while x[0] == 'call' and re.search(r'Option::<T>::(as_ref|as_deref)$', x[1]) and x[2]:
+            x = strip(x[2][0])
+        return x
+
+    def is_declared_payload(x):
+        # the declared type itself: payload Some of function.return_type (or `try` of it inside a map closure), through reference adapters
+        x = strip(x)
+        while x[0] == 'call' and re.search(r'(::as_ref|::deref|::borrow|::clone)$', x[1]) and x[2]:
+            x = strip(x[2][0])
+        if x[0] == 'payload' and x[2] == 'Some':
+            return peel_opt(x[1]) == RT
+        if x[0] == 'try':
+            return peel_opt(x[1]) == RT
+        return False
+
+    def resolved_declared(v):
+        v = unwrap_all(v)
+        while v[0] == 'call' and re.search(r'(ok_or_else|ok_or|with_context|context)$', v[1]) and v[2]:
+            v = unwrap_all(v[2][0])
+        return is_call(v, 'resolve_grammar_type') and len(v[2]) >= 3 and is_declared_payload(v[2][-1])
+
+    det = []
+    ok = True
+    for cs, v in value_table(f, e):
+        v = strip(v)
+        conds = [(peel_opt(c[1]) if c[0] == 'discr' else c, lab) for c, lab in cs]
+        declared = (RT, 'Some') in conds
+        absent = (RT, 'None') in conds
+        if v[0] == 'agg' and v[1].endswith('Option::None'):
+            det.append('declared=%s -> None' % ('no' if absent else 'yes' if declared else '?'))
+            ok = ok and absent
+        elif v[0] == 'agg' and v[1].endswith('Option::Some') and v[2]:
+            good = declared and resolved_declared(v[2][0][1])
+            det.append('declared=%s -> Some(%s)' % ('yes' if declared else '?', 'resolved declared type' if good else show(v[2][0][1])[:60]))
+            ok = ok and good
+        else:
+            x = v
+            if x[0] == 'try':
+                x = strip(x[1])
+            if is_call(x, 'Option::<T>::transpose') or is_call(x, 'transpose'):
+                x = strip(x[2][0])
+            n = opt_norm(f, x)
+            good = False
+            if is_call(x, 'Option::<T>::map') and peel_opt(x[2][0]) == RT and n[0] == 'some':
+                good = resolved_declared(n[1])
+            det.append('map over the declared type -> %s' % ('Some(resolved declared type)' if good else show(v)[:80]))
+            ok = ok and good
+    return bool(ok and det), '; '.join(det)
 
 
 def resolve_discipline(ctx):
@@ -460,6 +522,24 @@ def copy_implies_clone(ctx, f, d, tag):
 
 
 # ------------------------------------------------------------------------------------------------
+def scan_tags(fid_, what):
+    if 'Attributes::doc' in fid_:
+        return ['C17']
+    if 'enum_definition' in fid_:
+        return ['C08', 'C17', 'C15']
+    if 'function::build' in fid_:
+        return ['C05', 'C16', 'C04', 'C20']
+    if 'vftable' in fid_:
+        return ['C04', 'C20']
+    if 'add_module' in fid_:
+        return ['C15', 'C02']
+    if 'type_definition::build' in fid_ and 'statements' in what:
+        return ['C01', 'C07', 'C20', 'C04', 'C06']
+    if 'type_definition::build' in fid_:
+        return ['C02', 'C03', 'C17', 'C15']
+    return ['C17']
+
+
 def attribute_scans(ctx):
     """every loop that scans an attribute list looks at every attribute: the only ways out of the loop are the end of the
     list and an Err (an early `break` makes the meaning of an item depend on the order in which its attributes are written)"""
@@ -501,25 +581,45 @@ def attribute_scans(ctx):
             src = strip(f.expr_of_operand(nt['args'][0]))
             what = sorted(set(fields_in(expand(f, src))))
             key = '%s|%s' % (re.sub(r'\{closure#\d+\}', '{closure}', f.id), '+'.join(what)[:40] or 'attributes')
-            fid_ = f.id
-            if 'Attributes::doc' in fid_:
-                tags = ['C17']
-            elif 'enum_definition' in fid_:
-                tags = ['C08', 'C17', 'C15']
-            elif 'function::build' in fid_:
-                tags = ['C05', 'C16', 'C04', 'C20']
-            elif 'vftable' in fid_:
-                tags = ['C04', 'C20']
-            elif 'add_module' in fid_:
-                tags = ['C15', 'C02']
-            elif 'type_definition::build' in fid_ and 'statements' in what:
-                tags = ['C01', 'C07', 'C20', 'C04', 'C06']
-            elif 'type_definition::build' in fid_:
-                tags = ['C02', 'C03', 'C17', 'C15']
-            else:
-                tags = ['C17']
+            tags = scan_tags(f.id, what)
             ctx.ob(tags, 'R-ITER', 'attribute-scan-complete|' + key, not bad,
                    'the scan over the attribute list ends only at the end of the list or with an error' + ('' if not bad else ' — it can leave early at %s' % bad), loc(f.term(h)['span']))
+    # an attribute is recognised wherever it stands in its list: every test of an attribute's kind reads an element handed out by
+    # an iteration (or a parameter / closure parameter), never a fixed position of the list (slice pattern, [i], first(), last())
+    m = 0
+    for f in P.fns.values():
+        if f.raw.get('derived') or f.id.startswith('parser::'):
+            continue
+        bad = []
+        cnt = 0
+        for bi in f.normal_blocks():
+            for st in f.raw['blocks'][bi]['stmts']:
+                rv = st.get('rv') or {}
+                if rv.get('k') != 'Discriminant' or rv['place'].get('ty') != 'grammar::Attribute':
+                    continue
+                cnt += 1
+                x = f.expr_of_place(rv['place'])
+                while isinstance(x, tuple) and x:
+                    if x[0] in ('cindex', 'index', 'subslice'):
+                        bad.append(loc(st.get('span') or f.span))
+                        break
+                    if x[0] == 'call':
+                        if re.search(r'(::first|::last|::get|::get_mut|::split_first|::split_last|::nth|::pop|::swap_remove|::remove|::first_chunk|::last_chunk)$', x[1]):
+                            bad.append(loc(st.get('span') or f.span))
+                            break
+                        if x[1].endswith('Iterator::next') or not x[2]:
+                            break
+                        x = x[2][0]
+                    elif len(x) > 1 and isinstance(x[1], tuple):
+                        x = x[1]
+                    else:
+                        break
+        if cnt:
+            m += 1
+            ctx.ob(list(dict.fromkeys(scan_tags(f.id, []) + ['C20'])), 'R-ITER', 'attribute-kind-tested-on-scanned-element|' + re.sub(r'\{closure#\d+\}', '{closure}', f.id), not bad,
+                   'an attribute is recognised wherever it stands in its list: %d kind tests, all on an element handed out by an iteration%s' % (
+                       cnt, '' if not bad else ' — fixed position of the list read at %s' % sorted(set(bad))), loc(f.span))
+    ctx.ob(['C17'], 'R-ITER', 'attribute-kind-tested-on-scanned-element|census', m >= 3, 'functions that test attribute kinds: %d (floor 3)' % m, nontrivial=False)
     ctx.ob(['C17'], 'R-ITER', 'attribute-scan-complete|census', n >= 8, 'attribute scanning loops examined: %d (floor 8)' % n, nontrivial=False)
     # Attributes::doc joins all doc attributes in order
     d = [f for f in P.fns.values() if f.id.endswith('grammar::Attributes::doc')]
